@@ -266,6 +266,22 @@ CHECKS = {
 NOT_YET = "check not built yet in this session; see DESIGN.md section 4 for the planned solver-based harness"
 
 
+# additions made after the second round of seeded changes (appended to the level text of the property)
+EXTRA = {
+    "C01": " End-to-end jobs compose the real Producer with the real KafkaClient, broker clients, protocol and codec over an in-memory network against simulated brokers (reference parser/encoder) whose behaviour per broker is a symbolic choice (acknowledge, persistent error code, silent, refuse, leadership moves); what each send reported is compared with what the brokers received, applied and acknowledged.",
+    "C03": " A byte-level job feeds the consumer fetch responses encoded by the reference encoder (plain and gzip-wrapped, both formats, compaction gaps) through the real decoder and compares every commit with the stored offset of the last processed message.",
+    "C04": " A wire monitor additionally encodes, with the real codec, every request object the real Coordinator/ConsumerGroup/Consumer hand to the client on every explored path of the group protocol (error replies, evictions, re-joins) and parses it with the reference parser, which rejects null in non-nullable STRING fields.",
+    "C06": " Re-entrancy is part of the script: response callbacks may close the client or re-issue the id, failure handlers may cancel another outstanding request.",
+    "C09": " Jobs in which the client answers synchronously (already-fired Deferred) exercise the producer's handlers re-entrantly.",
+    "C10": " One job lets the endpoint's connect() fail before it returns (already-failed Deferred).",
+    "C13": " Two further states cover stop/shutdown while the outstanding offset lookup or fetch is the last attempt the retry limit allows.",
+    "C15": " An engine-B scenario runs the real Coordinator and _ConsumerProtocol on the real KafkaClient metadata path (down to the bytes, against simulated brokers) while the cluster's partition map changes between generations; each generation's SyncGroup is decoded by the reference parser and compared with the partitions the cluster has at that time.",
+    "C18": " Round-robin obligations include lists changed in place by the caller.",
+    "C19": " Re-entrancy jobs: the client may answer synchronously and the application may submit a send from a result handler, i.e. during the producer's own dispatch.",
+    "C20": " One state has the broker client backing off after an endpoint whose connect() failed synchronously.",
+}
+
+
 def main():
     props = [json.loads(l)["id"] for l in open(os.path.join(ROOT, "properties.jsonl"))]
     checks = []
@@ -282,7 +298,7 @@ def main():
             "evidence_file": "/verif/evidence/%s.json" % pid,
             "replay_cmd_template": "./check %s --replay {path}" % pid,
             "engine": c.get("engine", "symrun"),
-            "level_claimed": {"category": c["category"], "text": c["text"], "design_ref": c["design_ref"]},
+            "level_claimed": {"category": c["category"], "text": c["text"] + EXTRA.get(pid, ""), "design_ref": c["design_ref"]},
             "level_note": c["note"],
             "technique": c["technique"],
         })
